@@ -682,7 +682,8 @@ def run(tier, seed, replay=None):
         "an exception ends a modelled history (no model of partially updated objects)",
         "harness/compat.py import shim; numpy/numba/CPython; Python dict order = insertion order",
     ]
-    R.check_proofs(PROOF_FILES)
+    R.check_proofs(PROOF_FILES, build_targets=["theories/Props/C06.vo", "theories/Model/BvhRun.vo",
+                                               "theories/Proofs/BvhReal.vo"])
 
     cases = []
     if replay:
